@@ -73,6 +73,21 @@ StoreImpl(reg, e) == IF \E i \in DOMAIN reg : reg[i].name = e.name THEN reg ELSE
 \* the new entry is either refused (registry unchanged) or placed AFTER every existing entry
 StoreSpec(reg, e) == {reg, Append(reg, e)}
 
+\* Database operations that also touch the session registry (parsing/sqlite.py: adsorbate_to_db,
+\* adsorbate_delete_db).  On NAME sequences (the registry order is what first-match depends on):
+\*   a REFUSED operation (it raised) leaves the registry exactly as it was;
+\*   a successful delete removes the entries of that name and nothing else;
+\*   a successful upload places the adsorbate after every other entry (an overwrite first drops
+\*   the entries it replaces).
+Without(names, n) == SelectSeq(names, LAMBDA x : x # n)
+DbStepSpec(op, n, outcome, pre, post) ==
+   IF outcome = "refused" THEN post = pre
+   ELSE CASE op = "delete" -> post = Without(pre, n)
+          [] op = "to_db" -> post = Append(pre, n)
+          [] op = "to_db_overwrite" -> post = Append(Without(pre, n), n)
+\* adsorbate_delete_db as implemented: the registry is touched only after the DELETE statements went through
+DbDeleteImpl(reg, n, refused) == IF refused THEN reg ELSE SelectSeq(reg, LAMBDA e : e.name # n)
+
 \* resolution of the first n (shipped) entries' strings is unaffected by anything stored later
 ShippedStable(reg, n) ==
    LET shipped == SubSeq(reg, 1, n) IN
